@@ -407,7 +407,11 @@ where
                     //       tokens recognitions.
                     let layout = context.layout_ahead();
                     next_token = self.next_token(input, context, &layout_parser)?;
-                    context.set_layout_ahead(layout);
+                    if context.layout_ahead().is_none() {
+                        // No layout is found this time. Keep the layout
+                        // skipped before the reduction.
+                        context.set_layout_ahead(layout);
+                    }
                     log!("{}: {:?}", "Token ahead".paint(LOG), next_token);
                 }
                 Action::Accept => {
